@@ -22,6 +22,9 @@ def members(rng, kw):
             A.Padded(3, A.Alias("Byte")), A.Flag, A.ZigZag, A.PaddedString(A.T("_params", "k"), "ascii")]
     pool += [A.PrefixedArray(A.Alias("Byte"), A.VarInt), A.PrefixedArray(A.Alias("Int16ub"), A.CString("utf8"))]
     pool += [A.Default(A.Alias("Int16ub"), 7), A.Optional(A.Alias("Byte")), A.Const(b"MZ"), A.Default(A.Alias("Byte"), 1)]
+    # wrappers that cannot tell their size although their element can (a run ended by a value, a terminated field): parsed, never skipped
+    pool += [A.RepeatUntil(A.Bin("==", A.Obj, A.C(0)), A.Alias("Byte")), A.NullTerminated(A.GreedyBytes), A.RepeatUntil(A.Bin("==", A.Obj, A.C(0)), A.Alias("Int16ub")),
+             A.NullTerminated(A.Alias("Int16ub"), term=b"\xff")]
     n = rng.choice([1, 2, 3, 3, 4, 4, 5, 6])
     return [A.Renamed(nm, rng.choice(pool)) for nm in "abcdef"[:n]]
 
@@ -119,115 +122,118 @@ def run(ctx):
             except Exception:
                 campaign.REALIZED["failed"] += 1
                 continue
-            # canonical inputs (+ trailing bytes), mutated ones
-            datas = []
-            for _ in range(3):
-                try:
-                    v = gen.build_value(rng, eager, kw)
-                    datas.append(ec.build(v, **kw) + gen.rbytes(rng, rng.choice([0, 2])))
-                except Exception:
-                    pass
-            datas += [gen.mutate(rng, d) for d in datas[:1]] + [gen.random_input(rng, 12)]
-            for data in datas:
-                st = rng.choice([0, 0, 1, 3])
-                full = b"\xee" * st + data
-                ie, e = camp.parse(eager, ec, full, st, kw)
-                if not e["res"]["ok"]:
-                    continue
-                n = len(mem) if kind == "struct" else (V.dec(lazy["count"]["v"]) if kind == "array" else 1)
-                for h in histories(rng, n, quick) if n else []:
-                    stream = io.BytesIO(full); stream.seek(st)
-                    rec = {"ok": True, "err": "", "p": -1, "kind": kind, "hist": []}
+            # the same lazy object is used again under other keywords (a member sized by a keyword has another size then)
+            kws = [kw] + ([{"k": kw["k"] % 3 + 1}] if "_params" in str(lazy) else [])
+            for kw in kws:
+                # canonical inputs (+ trailing bytes), mutated ones
+                datas = []
+                for _ in range(3):
                     try:
-                        res = lc.parse_stream(stream, **kw)
-                        rec["p"] = stream.tell()
-                    except Exception as ex:
-                        rec["ok"] = False
-                        rec["err"] = type(ex).__name__
-                        res = None
-                    if rec["ok"]:
-                        # park the stream somewhere else: an access must not care where the stream stands, and must put it back
-                        if rng.random() < 0.5:
-                            stream.seek(rng.randrange(len(full) + 1))
-                        for j in h:
-                            pb = stream.tell()
-                            how = rng.randrange(4)
-                            try:
-                                if kind == "struct":
-                                    nm = mem[j]["name"]
-                                    pos = [q for q, sc in enumerate(lazy["subs"]) if sc.get("k") == "Renamed"][j]
-                                    val = res[nm] if how == 0 else getattr(res, nm) if how == 1 else res[pos] if how == 2 else dict(res.items())[nm]
-                                elif kind == "array":
-                                    nm = ""
-                                    val = res[j] if how < 2 else res[j:j + 1][0] if how == 2 else list(res)[j]
-                                else:
-                                    nm = ""
-                                    val = res()
-                                ok = True
-                            except Exception:
-                                ok, val = False, None
-                            rec["hist"].append({"i": j + 1, "nm": nm, "ok": ok, "v": V.enc(force(val)) if ok else V.VNone(), "pb": pb, "pa": stream.tell()})
-                        if kind == "array" and rng.random() < 0.6:
-                            # whatever was touched before, and in whatever order: a slice of the whole holds the elements in their order
-                            pb = stream.tell()
-                            lo = rng.choice([0, 0, 1]) if n > 1 else 0
-                            try:
-                                whole, ok = list(res[lo:]), True
-                            except Exception:
-                                whole, ok = [None] * (n - lo), False
-                            for j, val in enumerate(whole[: n - lo]):
-                                rec["hist"].append({"i": lo + j + 1, "nm": "", "ok": ok, "v": V.enc(force(val)) if ok else V.VNone(), "pb": pb, "pa": stream.tell()})
-                    camp.sh.session("C16.history", [ie], x=rec)
-                    if h != sorted(h) or len(set(h)) != len(h):
-                        nt += 1
-                # building from the lazy result (nothing touched, or everything) emits what building from the eager result emits
-                if data in datas[:3]:
-                    try:
-                        ve = V.dec(e["res"]["v"])
+                        v = gen.build_value(rng, eager, kw)
+                        datas.append(ec.build(v, **kw) + gen.rbytes(rng, rng.choice([0, 2])))
                     except Exception:
-                        ve = None
-                    if ve is not None or e["res"]["v"].get("t") == "none":
-                        ibe, be = camp.build(eager, ec, ve, b"", kw, arg=e["res"]["v"])
-                        for touch in (False, True):
-                            stream = io.BytesIO(full); stream.seek(st)
-                            try:
-                                res = lc.parse_stream(stream, **kw)
-                            except Exception:
-                                continue        # (a lazy parse that declines is the history clause's business)
-                            try:
-                                if touch:
-                                    force(res)
-                                out = io.BytesIO()
-                                lc.build_stream(res, out, **kw)
-                                call = {"op": "build", "events": [], "res": {"ok": True, "v": V.VBytes(out.getvalue()), "err": "", "p": out.tell(), "path": []}}
-                            except Exception as ex:
-                                call = {"op": "build", "events": [], "res": {"ok": False, "v": V.VNone(), "err": type(ex).__name__, "p": 0, "path": []}}
-                            il = camp.sh.add({"k": "Opaque", "desc": "build from the lazy result"}, call, kw, b"", 0, None, None, "lazy-build")
-                            camp.sh.session("C16.eager-equal", [ibe, il], x={"lazy": lazy})
-                camp.sh.maybe_flush()
-            # lazies embedded in a surrounding parse whose later members read them
-            if kind in ("struct", "array") and mem:
-                first = mem[0]["name"]
-                ref = A.T("l", first) if kind == "struct" else A.Idx(A.T("l"), 0)
-                outer_l = A.Struct(A.Renamed("h", A.Alias("Byte")), A.Renamed("l", lazy), A.Renamed("c", A.Computed(ref)), A.Renamed("n", A.Bytes(2)), A.Renamed("t", A.Tell))
-                outer_e = eager_twin(outer_l)
-                try:
-                    olc, oec = A.realize(outer_l), A.realize(outer_e)
-                except Exception:
-                    continue
-                for data in datas[:3]:
-                    full = b"\x09" + data + b"\x41\x42\x43"
-                    ie, e = camp.parse(outer_e, oec, full, 0, kw)
-                    # the lazy side: record by hand (values forced after the parse)
-                    stream = io.BytesIO(full)
+                        pass
+                datas += [gen.mutate(rng, d) for d in datas[:1]] + [gen.random_input(rng, 12)]
+                for data in datas:
+                    st = rng.choice([0, 0, 1, 3])
+                    full = b"\xee" * st + data
+                    ie, e = camp.parse(eager, ec, full, st, kw)
+                    if not e["res"]["ok"]:
+                        continue
+                    n = len(mem) if kind == "struct" else (V.dec(lazy["count"]["v"]) if kind == "array" else 1)
+                    for h in histories(rng, n, quick) if n else []:
+                        stream = io.BytesIO(full); stream.seek(st)
+                        rec = {"ok": True, "err": "", "p": -1, "kind": kind, "hist": []}
+                        try:
+                            res = lc.parse_stream(stream, **kw)
+                            rec["p"] = stream.tell()
+                        except Exception as ex:
+                            rec["ok"] = False
+                            rec["err"] = type(ex).__name__
+                            res = None
+                        if rec["ok"]:
+                            # park the stream somewhere else: an access must not care where the stream stands, and must put it back
+                            if rng.random() < 0.5:
+                                stream.seek(rng.randrange(len(full) + 1))
+                            for j in h:
+                                pb = stream.tell()
+                                how = rng.randrange(4)
+                                try:
+                                    if kind == "struct":
+                                        nm = mem[j]["name"]
+                                        pos = [q for q, sc in enumerate(lazy["subs"]) if sc.get("k") == "Renamed"][j]
+                                        val = res[nm] if how == 0 else getattr(res, nm) if how == 1 else res[pos] if how == 2 else dict(res.items())[nm]
+                                    elif kind == "array":
+                                        nm = ""
+                                        val = res[j] if how < 2 else res[j:j + 1][0] if how == 2 else list(res)[j]
+                                    else:
+                                        nm = ""
+                                        val = res()
+                                    ok = True
+                                except Exception:
+                                    ok, val = False, None
+                                rec["hist"].append({"i": j + 1, "nm": nm, "ok": ok, "v": V.enc(force(val)) if ok else V.VNone(), "pb": pb, "pa": stream.tell()})
+                            if kind == "array" and rng.random() < 0.6:
+                                # whatever was touched before, and in whatever order: a slice of the whole holds the elements in their order
+                                pb = stream.tell()
+                                lo = rng.choice([0, 0, 1]) if n > 1 else 0
+                                try:
+                                    whole, ok = list(res[lo:]), True
+                                except Exception:
+                                    whole, ok = [None] * (n - lo), False
+                                for j, val in enumerate(whole[: n - lo]):
+                                    rec["hist"].append({"i": lo + j + 1, "nm": "", "ok": ok, "v": V.enc(force(val)) if ok else V.VNone(), "pb": pb, "pa": stream.tell()})
+                        camp.sh.session("C16.history", [ie], x=rec)
+                        if h != sorted(h) or len(set(h)) != len(h):
+                            nt += 1
+                    # building from the lazy result (nothing touched, or everything) emits what building from the eager result emits
+                    if data in datas[:3]:
+                        try:
+                            ve = V.dec(e["res"]["v"])
+                        except Exception:
+                            ve = None
+                        if ve is not None or e["res"]["v"].get("t") == "none":
+                            ibe, be = camp.build(eager, ec, ve, b"", kw, arg=e["res"]["v"])
+                            for touch in (False, True):
+                                stream = io.BytesIO(full); stream.seek(st)
+                                try:
+                                    res = lc.parse_stream(stream, **kw)
+                                except Exception:
+                                    continue        # (a lazy parse that declines is the history clause's business)
+                                try:
+                                    if touch:
+                                        force(res)
+                                    out = io.BytesIO()
+                                    lc.build_stream(res, out, **kw)
+                                    call = {"op": "build", "events": [], "res": {"ok": True, "v": V.VBytes(out.getvalue()), "err": "", "p": out.tell(), "path": []}}
+                                except Exception as ex:
+                                    call = {"op": "build", "events": [], "res": {"ok": False, "v": V.VNone(), "err": type(ex).__name__, "p": 0, "path": []}}
+                                il = camp.sh.add({"k": "Opaque", "desc": "build from the lazy result"}, call, kw, b"", 0, None, None, "lazy-build")
+                                camp.sh.session("C16.eager-equal", [ibe, il], x={"lazy": lazy})
+                    camp.sh.maybe_flush()
+                # lazies embedded in a surrounding parse whose later members read them
+                if kind in ("struct", "array") and mem:
+                    first = mem[0]["name"]
+                    ref = A.T("l", first) if kind == "struct" else A.Idx(A.T("l"), 0)
+                    outer_l = A.Struct(A.Renamed("h", A.Alias("Byte")), A.Renamed("l", lazy), A.Renamed("c", A.Computed(ref)), A.Renamed("n", A.Bytes(2)), A.Renamed("t", A.Tell))
+                    outer_e = eager_twin(outer_l)
                     try:
-                        res = olc.parse_stream(stream, **kw)
-                        call = {"op": "parse", "events": [], "res": {"ok": True, "v": V.enc(force(res)), "err": "", "p": stream.tell(), "path": []}}
-                    except Exception as ex:
-                        call = {"op": "parse", "events": [], "res": {"ok": False, "v": V.VNone(), "err": type(ex).__name__, "p": stream.tell(), "path": []}}
-                    il = camp.sh.add({"k": "Opaque", "desc": "lazy twin"}, call, kw, full, 0, None, None, "lazy")
-                    camp.sh.session("C16.eager-equal", [ie, il], x={"lazy": outer_l})
-                    nt += 1
+                        olc, oec = A.realize(outer_l), A.realize(outer_e)
+                    except Exception:
+                        continue
+                    for data in datas[:3]:
+                        full = b"\x09" + data + b"\x41\x42\x43"
+                        ie, e = camp.parse(outer_e, oec, full, 0, kw)
+                        # the lazy side: record by hand (values forced after the parse)
+                        stream = io.BytesIO(full)
+                        try:
+                            res = olc.parse_stream(stream, **kw)
+                            call = {"op": "parse", "events": [], "res": {"ok": True, "v": V.enc(force(res)), "err": "", "p": stream.tell(), "path": []}}
+                        except Exception as ex:
+                            call = {"op": "parse", "events": [], "res": {"ok": False, "v": V.VNone(), "err": type(ex).__name__, "p": stream.tell(), "path": []}}
+                        il = camp.sh.add({"k": "Opaque", "desc": "lazy twin"}, call, kw, full, 0, None, None, "lazy")
+                        camp.sh.session("C16.eager-equal", [ie, il], x={"lazy": outer_l})
+                        nt += 1
             if i < 2:
                 ctx.sample({"lazy": lazy, "kw": kw})
         vs = camp.validate()
